@@ -150,3 +150,103 @@ pub fn graph_decode(bytes: &[u8]) -> Out<Decoded> {
         Out::Panic(p) => Out::Panic(p),
     }
 }
+
+// ---------------------------------------------------------------------------------------------
+// Two kinds of tracked objects that share an address: a node and the `Core` embedded at its
+// offset 0. Both are offered to the stream as identities; they are distinct objects.
+
+pub struct Core {
+    pub tag: u8,
+}
+
+#[repr(C)]
+pub struct WNode {
+    pub core: Core,
+    pub edges: RefCell<Vec<Rc<WNode>>>,
+    /// edges to the *core* of another node (an identity of a different type at the same address)
+    pub core_edges: RefCell<Vec<Rc<WNode>>>,
+    me: Weak<WNode>,
+}
+
+impl WNode {
+    pub fn new(tag: u8) -> Rc<WNode> {
+        Rc::new_cyclic(|me| WNode { core: Core { tag }, edges: RefCell::new(Vec::new()), core_edges: RefCell::new(Vec::new()), me: me.clone() })
+    }
+}
+
+pub struct WGraph {
+    pub root: Rc<WNode>,
+}
+
+fn write_core<O: BinaryOutput>(c: &Core, ctx: &mut SerializationContext<O>) -> Result<()> {
+    if ctx.store_ref_or_object(c)? {
+        ctx.write_u8(c.tag);
+    }
+    Ok(())
+}
+
+fn write_wbody<O: BinaryOutput>(n: &WNode, ctx: &mut SerializationContext<O>) -> Result<()> {
+    // the node's own core is a tracked object too
+    write_core(&n.core, ctx)?;
+    let edges = n.edges.borrow();
+    ctx.write_u8(edges.len() as u8);
+    for t in edges.iter() {
+        let target: &WNode = t;
+        if ctx.store_ref_or_object(target)? {
+            write_wbody(target, ctx)?;
+        }
+    }
+    let ce = n.core_edges.borrow();
+    ctx.write_u8(ce.len() as u8);
+    for t in ce.iter() {
+        // a reference to the core of a node: if that core was not met yet, its tag follows
+        write_core(&t.core, ctx)?;
+    }
+    Ok(())
+}
+
+impl BinarySerializer for WGraph {
+    fn serialize<O: BinaryOutput>(&self, ctx: &mut SerializationContext<O>) -> Result<()> {
+        let root: &WNode = &self.root;
+        if ctx.store_ref_or_object(root)? {
+            write_wbody(root, ctx)?;
+        }
+        Ok(())
+    }
+}
+
+pub fn wgraph_encode(g: &WGraph) -> Out<Vec<u8>> {
+    guarded(|| desert::serialize_to_byte_vec(g)).0
+}
+
+/// reader side of the table: register `cores.len()` cores and nodes alternately the way a
+/// decoder of the stream above would, then resolve every id; returns which kind each id denotes
+pub fn typed_lookup(n: usize) -> Out<Vec<String>> {
+    guarded(|| {
+        let input = [0u8];
+        let mut ctx = DeserializationContext::new(&input);
+        let nodes: Vec<Rc<WNode>> = (0..n).map(|i| WNode::new(i as u8)).collect();
+        for nd in &nodes {
+            let w: &WNode = nd;
+            ctx.state_mut().store_ref(w);
+            ctx.state_mut().store_ref(&w.core);
+        }
+        let mut out = Vec::new();
+        for id in 1..=(2 * n as u32 + 1) {
+            match ctx.state().get_ref_by_id(desert::RefId(id)) {
+                Some(any) => {
+                    if let Some(w) = any.downcast_ref::<WNode>() {
+                        out.push(format!("node{}", w.core.tag));
+                    } else if let Some(c) = any.downcast_ref::<Core>() {
+                        out.push(format!("core{}", c.tag));
+                    } else {
+                        out.push("other".into());
+                    }
+                }
+                None => out.push("none".into()),
+            }
+        }
+        Ok(out)
+    })
+    .0
+}
